@@ -137,6 +137,62 @@ def expected_streams(tree):
     return toks, cmts
 
 
+OPTIONAL_PAREN_PARENTS = ('Parenthesized', 'Params', 'ModuleImport', 'ImportItems')
+
+
+def strip_layout_keep_parens(s):
+    return ''.join(ch for ch in s if ch in '()' or ch not in LAYOUT_CHARS)
+
+
+def expected_paren_stream(tree, parent=None, out=None):
+    """token stream without comments in which the parentheses that belong to the construct (argument lists, arrays, dictionaries,
+    destructuring patterns, math delimiters) are kept; parentheses that only group (Parenthesized) or that the formatter may add or
+    drop (closure parameters, import items) are left out.  None when the shape holds a comment (comments may move across delimiters)."""
+    top = out is None
+    out = [] if out is None else out
+    kind, x = tree
+    if isinstance(x, list):
+        for c in x:
+            if expected_paren_stream(c, kind, out) is None:
+                return None
+    elif kind in ('LineComment', 'BlockComment'):
+        return None
+    elif kind in ('LeftParen', 'RightParen') and parent in OPTIONAL_PAREN_PARENTS:
+        pass
+    else:
+        out.append(strip_layout_keep_parens(x))
+    return ''.join(out) if top else out
+
+
+def derivable_by_deleting_pairs(expected, got):
+    """`expected` is obtained from `got` by deleting matched pairs of parentheses (grouping parentheses the formatter kept or added)"""
+    budget = [20000]
+    n, m = len(got), len(expected)
+
+    def rec(i, j, stack):
+        budget[0] -= 1
+        if budget[0] < 0:
+            return False
+        while i < n and got[i] not in '()':
+            if j >= m or expected[j] != got[i]:
+                return False
+            i += 1
+            j += 1
+        if i == n:
+            return j == m and 'd' not in stack
+        if got[i] == '(':
+            if j < m and expected[j] == '(' and rec(i + 1, j + 1, stack + 'k'):
+                return True
+            return rec(i + 1, j, stack + 'd')
+        # ')'
+        if stack and stack[-1] == 'd':
+            return rec(i + 1, j, stack[:-1])
+        if j < m and expected[j] == ')':
+            return rec(i + 1, j + 1, stack[:-1] if stack else stack)
+        return False
+    return rec(0, 0, '')
+
+
 def collect_shapes(S, max_nodes, per_kind):
     files = sorted(glob.glob(os.path.join(REPO, 'tests/fixtures/**/*.typ'), recursive=True))
     if os.path.exists(EXTRA_CORPUS):
@@ -270,6 +326,7 @@ def explore(S, want=('C06',), per_kind=10, max_nodes=14, deep=False):
                 # tokens and comments are compared separately: a comment may move across a token of its own construct
                 # (`not /* c */ in` -> `/* c */ not in`), which changes neither the tree nor the order of the comments
                 exp_toks, exp_cmts = expected_streams(tree)
+                exp_par = expected_paren_stream(tree)
                 ncolon = redundant_colons(tree)
                 nrows = math_row_separators(tree)
                 ngaps = code_statement_gaps(tree)
@@ -297,6 +354,27 @@ def explore(S, want=('C06',), per_kind=10, max_nodes=14, deep=False):
                         same = b_and(same, b_not(i_eq(c0.get('mode').disc, 3, 64)))
                     if want[0] == 'C05':
                         continue            # only panic freedom is asked for
+                    if exp_par is not None and not ncolon and want[0] == 'C01':
+                        # parentheses that belong to the construct stay where they are relative to the tokens (grouping parentheses may come and go)
+                        gp = ''
+                        okp = True
+                        for a in at:
+                            if a[0] == 't':
+                                if not a[1].is_concrete():
+                                    okp = False
+                                    break
+                                gp += strip_layout_keep_parens(a[1].concrete())
+                            elif a[0] == 'o':
+                                nd = index.get(a[2][0]) if a[2] else None
+                                if nd is None:
+                                    okp = False
+                                    break
+                                gp += strip_layout_keep_parens(nd.into_text().concrete())
+                        if okp:
+                            # (a shape taken out of code and converted in the math mode is another construct there: not judged)
+                            ctx.must_hold(b_or(derivable_by_deleting_pairs(exp_par, gp), i_eq(c0.get('mode').disc, 3, 64)), '%s:delimiters-of-a-construct-moved-across-tokens' % want[0],
+                                          lambda mdl, mode=mode, gp=gp: dict(kind=tree[0], source=src_text, layout=mode, expected=exp_par, got=gp,
+                                                                             mode=model_int(mdl, c0.get('mode').disc), suppressed=model_bool(mdl, c0.get('break_suppressed'))))
                     ctx.must_hold(same, '%s:tokens-added-dropped-or-reordered' % want[0],
                                   lambda mdl, mode=mode, got=got: dict(kind=tree[0], source=src_text, layout=mode, expected=expected, got=got,
                                                                        mode=model_int(mdl, c0.get('mode').disc), suppressed=model_bool(mdl, c0.get('break_suppressed')),
@@ -395,6 +473,13 @@ def confirm(S, info):
             if strip_layout(out) != strip_layout(doc):
                 return dict(api='Typstyle::format_content', source=doc, width=w, output=out,
                             what='tokens changed: %s -> %s' % (show(doc), show(out)))
+            if 'delimiters-of-a-construct' in info.get('label', '') or True:
+                from . import deep as _deep
+                t_doc = _deep.tree_of(S, doc)
+                e_par = expected_paren_stream(t_doc) if t_doc is not None else None
+                if e_par is not None and not redundant_colons(t_doc) and not derivable_by_deleting_pairs(e_par, strip_layout_keep_parens(out)):
+                    return dict(api='Typstyle::format_content', source=doc, width=w, output=out,
+                                what='a parenthesis that belongs to a construct moved across tokens: %s -> %s' % (show(doc), show(out)))
             if doc.lstrip().startswith('$') and '#' not in doc and out.count(';') != doc.count(';'):
                 return dict(api='Typstyle::format_content', source=doc, width=w, output=out,
                             what='row separators of math arguments changed: %s -> %s' % (show(doc), show(out)))
